@@ -7,7 +7,7 @@ from typing import Dict, List, Optional, Set, Tuple
 
 from ..cfg import CFG, always_exits, dominating_conditions, flatten_conditions
 from ..core import AnalysisError, Ctx, calls_in, dotted, enclosing, enclosing_function_name, norm, parent, walk_ordered
-from ..elements import fold_const, registered_elements
+from ..elements import fold_const, module_consts, registered_elements
 from ..model import get_model
 
 LEVEL = "other"
@@ -358,9 +358,9 @@ def check(ctx: Ctx) -> None:
     reg_first = reg_cont = None
     for n in walk_ordered(vs.node):
         if isinstance(n, ast.Compare) and isinstance(n.ops[0], ast.NotIn) and norm(n.left) == "symbol[0]":
-            reg_first = fold_const(n.comparators[0], STRING_NAMES)
+            reg_first = fold_const(n.comparators[0], {**module_consts(ctx.repo, REG), **STRING_NAMES})
         if isinstance(n, (ast.Assign, ast.AnnAssign)) and norm(n.targets[0] if isinstance(n, ast.Assign) else n.target) == "valid_chars":
-            reg_cont = fold_const(n.value, STRING_NAMES)
+            reg_cont = fold_const(n.value, {**module_consts(ctx.repo, REG), **STRING_NAMES})
     il = model.fi(TOK, "Tokenizer.identifier_or_label")
     tok_cont = None
     for n in walk_ordered(il.node):
@@ -369,14 +369,14 @@ def check(ctx: Ctx) -> None:
                 for m in blk:
                     for x in walk_ordered(m):
                         if isinstance(x, ast.Assign) and norm(x.targets[0]) == "valid_chars":
-                            tok_cont = fold_const(x.value, STRING_NAMES)
+                            tok_cont = fold_const(x.value, {**module_consts(ctx.repo, TOK), **STRING_NAMES})
     tm = model.fi(TOK, "Tokenizer.main_loop")
     tok_first = None
     for n in walk_ordered(tm.node):
         if isinstance(n, ast.If) and any(dotted(c.func) == "self.identifier_or_label" for s in n.body for c in calls_in(s)):
             t = n.test
             if isinstance(t, ast.Compare) and isinstance(t.ops[0], ast.In):
-                tok_first = fold_const(t.comparators[0], STRING_NAMES)
+                tok_first = fold_const(t.comparators[0], {**module_consts(ctx.repo, TOK), **STRING_NAMES})
     if None in (reg_first, reg_cont, tok_cont, tok_first):
         raise AnalysisError(f"R15.5: alphabets not recovered (registry first={reg_first!r} cont={reg_cont!r}; tokenizer first={tok_first!r} cont={tok_cont!r})")
     ctx.instance("R15.5", f"registry first {len(reg_first)} chars ⊆ tokenizer first {len(tok_first)}")
